@@ -1,6 +1,7 @@
 import LasModel.Props.C14
 import LasModel.Props.C14File
-open LasModel.Props.C14 LasModel.Props.C14File
+import LasModel.Props.C14Append
+open LasModel.Props.C14 LasModel.Props.C14File LasModel.Props.C14Append
 #print axioms C14_decision_open
 #print axioms C14_decision_write
 #print axioms C14_bit
@@ -13,3 +14,6 @@ open LasModel.Props.C14 LasModel.Props.C14File
 #print axioms sessionC_form
 #print axioms C14_file_roundtrip
 #print axioms C14_file_transparent
+#print axioms stub_appendLaws
+#print axioms readFileC_form
+#print axioms C14_append_roundtrip
